@@ -106,7 +106,7 @@ theorem ok_with_cal (L : Laser) (hL : L.ok = true) (d : List (Str × Cal)) (hn :
   have F := okFacts L hL
   apply (okFacts_iff _).mpr
   exact ⟨F.ne, F.nul, F.nodup, hn, fun k hk => F.csub k (h1 k hk), fun k hk => h2 k (F.fsub k hk), hc, F.kind,
-    F.cfg, F.layers, F.info⟩
+    F.cfg, F.layers, F.native, F.info⟩
 
 /-- `c = laser.calibration.pop(k); laser.calibration[k] = c` keeps the laser inside the quantifier
 (and moves the entry to the end of the dict) -/
@@ -214,6 +214,37 @@ theorem setWarmup_robust (fl : Rat → Rat) (hfl : ∀ x, |fl x - x| ≤ |x| / 2
       (by norm_num at hd herr ⊢; linarith [herr.2])
     have e2 := roundHalfEven_near q.floor q (by linarith) (by norm_num at hd ⊢; linarith)
     rw [e1, e2]
+
+/-! ## an old file brought up to date -/
+
+theorem infoNoNul_finishInfo (p : PathInfo) (ver : Str) (i : Info) (hi : ∀ kv ∈ i, noNulEnd kv.2 = true)
+    (hs : noNulEnd p.stem = true) (hv : noNulEnd ver = true) : infoNoNul (finishInfo p ver i) = true := by
+  apply List.all_eq_true.mpr
+  intro kv hkv
+  simp only [Bool.or_eq_true, beq_iff_eq]
+  rcases mem_finishInfo p ver i kv hkv with h | ⟨_, h⟩ | h | h
+  · exact Or.inr (hi kv h)
+  · right
+    rcases h with h | ⟨k', h⟩
+    · rw [h]; exact hs
+    · exact hi (k', kv.2) h
+  · left; rw [h]
+  · right; rw [h]; exact hv
+
+theorem noNulEnd_infoSpec_values (i : Info) (hi : infoNoNul i = true) : ∀ kv ∈ infoSpec i, noNulEnd kv.2 = true := by
+  intro kv hkv
+  obtain ⟨kv0, hm, hne, rfl⟩ := mem_infoSpec i kv hkv
+  simp only [noNulEnd_tabToSpace]
+  have := (List.all_eq_true.mp hi) kv0 hm
+  simp only [Bool.or_eq_true, beq_iff_eq] at this
+  rcases this with e | e
+  · exact absurd e hne
+  · exact e
+
+/-- a loaded laser (by-name calibrations, finished info) is inside the quantifier again -/
+theorem ok_loaded (L : Laser) (hL : L.ok = true) (X : Info) (hX : infoNoNul X = true) :
+    ({ L with cal := calByName L.fields L.cal, info := X } : Laser).ok = true :=
+  ok_with_info { L with cal := calByName L.fields L.cal } X (ok_calByName L hL) (noNulEnd_packInfoRaw X hX)
 
 /-! ## histories -/
 
